@@ -45,6 +45,14 @@ def _enum(prog):
 
 
 def check(run):
+    _check_own(run)
+    from .copylib import copy_protocol
+    for name in (TS, "GeometricReservoirStorage"):
+        if run.prog.find_class(name) is not None:
+            copy_protocol(run, run.prog, run.prog.find_class(name))    # copies keep the leaf reservoirs and their always-insert setting
+
+
+def _check_own(run):
     prog = run.prog
     ts = prog.find_class(TS)
     ti = prog.find_class("TreeImputer")
@@ -470,6 +478,7 @@ def _tokens(run, prog, ts):
 
 
 def _imputer(run, prog, ts, ti):
+    _model_classes(run, prog, ti)
     fr = c06.FilterRun(run, {"MERGE", "KEYS", "COUNT", "NOMUT"}, {"MERGE": "IMPUTE", "KEYS": "IMPUTE", "COUNT": "IMPUTE", "NOMUT": "IMPUTE"})
     c06._imputer(fr, prog, ti)
     s = prog.summarise(ti, "impute")
@@ -539,6 +548,41 @@ def _imputer(run, prog, ts, ti):
               f"in storage mode the value must be row[f] of a uniformly drawn row of the routed leaf's reservoir, falling back "
               f"to the tree's own prediction only when that leaf has no reservoir: {why}",
               "reservoirs[f][leaf_id].get_data()[0][uniform idx][f]; except KeyError -> model sample")
+
+
+def _model_classes(run, prog, ti):
+    """The sampler that draws a categorical value from the feature tree's class probabilities hands back one of the
+    classes themselves: the keys of predict_proba_one, picked by a standard-library draw.  A NumPy draw over the keys
+    returns elements of an array built from them, i.e. coerced to one dtype (1, 2, 'n/a' become '1', '2', 'n/a')."""
+    from .drawlib import draws_in
+    n = 0
+    for k in prog.mro(ti):
+        for mname, fn in k.methods.items():
+            if prog.find_method(ti, mname)[1] is not fn:
+                continue
+            try:
+                s = prog.summarise(ti, mname)
+            except ir.Unsupported:
+                continue
+            probas = [ev for ev, ctx in walk(s.events) if isinstance(ev, ir.Call) and ev.method == "predict_proba_one" and not ctx.inl]
+            if not probas:
+                continue
+            n += 1
+            fq = f"TreeImputer.{mname}"
+            run.analysed_fn(fq)
+            pr = probas[0].res
+            ds = [d for d in draws_in(s.ret) if pr in ir.subterms(d)]
+            np_draw = next((d for d in ds if d[2].startswith("numpy.random.")), None)
+            if np_draw is not None:
+                run.fail("IMPUTE", f"class-value.{mname}", f"{s.path}:{s.fn.lineno}", fq, f"{np_draw[2]} over the classes",
+                         f"the categorical value is drawn with {np_draw[2]} over the classes the feature tree knows: NumPy first "
+                         f"builds an array of them, so classes of mixed types (1, 2, 'n/a') are coerced to strings and the model "
+                         f"is handed '2' instead of the observed class 2")
+            elif ds and all(d[2] in ("random.choices", "random.choice", "random.sample") for d in ds):
+                run.ok("IMPUTE", f"class-value.{mname}", f"value = one of the keys of predict_proba_one, drawn by {ds[0][2]}")
+            else:
+                raise AnalysisError(f"{fq}: how the class value is drawn from predict_proba_one is not followed")
+    run.need(n >= 1, "TreeImputer has no sampler reading predict_proba_one")
 
 
 _T = "ixai/storage/tree_storage.py"
